@@ -1,0 +1,194 @@
+//go:build verif
+
+// Verification hooks for properties C12/C13 (/verif). Add-only, compiled only with
+// the build tag `verif`; nothing here is reachable from the regular build.
+package timeout
+
+import (
+	"container/heap"
+	"fmt"
+	"time"
+)
+
+type (
+	// VerifHeapOp is one step of a script for VerifHeapOps.
+	//   K = "push":     new future ID with fireT = T (ns after a fixed instant), heap.Push
+	//   K = "removeAt": heap.Remove(h, Kth)
+	//   K = "removeId": what cancel() does with the future ID: if idx >= 0 { f = nil; heap.Remove(h, idx) }
+	//   K = "pop":      heap.Pop if Len() > 0
+	//   K = "fix":      (*h)[Kth].fireT = T; heap.Fix(h, Kth)
+	//   K = "init":     heap.Init(h)
+	VerifHeapOp struct {
+		K   string `json:"k"`
+		ID  int    `json:"id,omitempty"`
+		T   int64  `json:"t,omitempty"`
+		Kth int    `json:"kth,omitempty"`
+	}
+
+	// VerifSlot is one slot of the futures slice
+	VerifSlot struct {
+		ID    int
+		Idx   int
+		FireT int64
+	}
+
+	// VerifHeapStep is what was seen after one step of the script
+	VerifHeapStep struct {
+		Slots []VerifSlot // the slice in order: (id, idx, fireT)
+		Stray []int       // ids of futures that are NOT in the slice but whose idx != -1
+		Out   int         // id of the future returned by heap.Pop/heap.Remove, -1 if none
+		OutF  bool        // whether the returned future still has its function
+		Panic string      // recovered panic, "" if none
+		Skip  bool        // the step was not applicable (index out of range, unknown id, empty heap)
+	}
+
+	// VerifLive is one pending future of the package-level heap
+	VerifLive struct {
+		Fu    Future
+		Idx   int // the value of its idx field
+		Pos   int // its position in the slice
+		FireT time.Time
+		HasF  bool
+	}
+)
+
+var verifEpoch = time.Unix(1_000_000_000, 0)
+
+// VerifHeapOps drives a PRIVATE futures value (not the package-level one) through the
+// real container/heap and reports the slice after every step. No clock, no goroutines.
+func VerifHeapOps(script []VerifHeapOp) []VerifHeapStep {
+	fs := &futures{}
+	byID := map[int]*future{}
+	ids := map[*future]int{}
+	var order []int
+	res := make([]VerifHeapStep, 0, len(script))
+	for _, op := range script {
+		st := VerifHeapStep{Out: -1}
+		func() {
+			defer func() {
+				if r := recover(); r != nil {
+					st.Panic = fmt.Sprint(r)
+				}
+			}()
+			out := func(x any) {
+				fu := x.(*future)
+				st.Out = ids[fu]
+				st.OutF = fu.f != nil
+			}
+			switch op.K {
+			case "push":
+				if _, ok := byID[op.ID]; ok {
+					st.Skip = true
+					return
+				}
+				fu := new(future)
+				fu.f = func() {}
+				fu.fireT = verifEpoch.Add(time.Duration(op.T))
+				fu.idx = -1
+				byID[op.ID] = fu
+				ids[fu] = op.ID
+				order = append(order, op.ID)
+				heap.Push(fs, fu)
+			case "removeAt":
+				if op.Kth < 0 || op.Kth >= fs.Len() {
+					st.Skip = true
+					return
+				}
+				out(heap.Remove(fs, op.Kth))
+			case "removeId":
+				fu, ok := byID[op.ID]
+				if !ok || fu.idx < 0 {
+					st.Skip = true
+					return
+				}
+				fu.f = nil
+				out(heap.Remove(fs, fu.idx))
+			case "pop":
+				if fs.Len() == 0 {
+					st.Skip = true
+					return
+				}
+				out(heap.Pop(fs))
+			case "fix":
+				if op.Kth < 0 || op.Kth >= fs.Len() {
+					st.Skip = true
+					return
+				}
+				(*fs)[op.Kth].fireT = verifEpoch.Add(time.Duration(op.T))
+				heap.Fix(fs, op.Kth)
+			case "init":
+				heap.Init(fs)
+			default:
+				st.Skip = true
+			}
+		}()
+		in := map[*future]bool{}
+		for _, fu := range *fs {
+			if fu == nil {
+				st.Slots = append(st.Slots, VerifSlot{ID: -1, Idx: -2})
+				continue
+			}
+			in[fu] = true
+			st.Slots = append(st.Slots, VerifSlot{ID: ids[fu], Idx: fu.idx, FireT: int64(fu.fireT.Sub(verifEpoch))})
+		}
+		for _, id := range order {
+			if fu := byID[id]; !in[fu] && fu.idx != -1 {
+				st.Stray = append(st.Stray, id)
+			}
+		}
+		res = append(res, st)
+	}
+	return res
+}
+
+// VerifSnapshot returns, under the package lock, the worker count, the number of
+// buffered wake-up tokens and the pending futures in slice order.
+func VerifSnapshot() (watchers int, tokens int, pending []VerifLive) {
+	cc.lock.Lock()
+	defer cc.lock.Unlock()
+	watchers = cc.watchers
+	tokens = len(cc.wakeCh)
+	pending = make([]VerifLive, 0, len(*cc.futures))
+	for i, fu := range *cc.futures {
+		if fu == nil {
+			pending = append(pending, VerifLive{Idx: -2, Pos: i})
+			continue
+		}
+		pending = append(pending, VerifLive{Fu: fu, Idx: fu.idx, Pos: i, FireT: fu.fireT, HasF: fu.f != nil})
+	}
+	return
+}
+
+// VerifFuture returns the fields of one future (under the package lock); ok is false
+// for a Future that was not made by Call.
+func VerifFuture(f Future) (fireT time.Time, idx int, hasF bool, ok bool) {
+	fu, isFu := f.(*future)
+	if !isFu {
+		return time.Time{}, -1, false, false
+	}
+	cc.lock.Lock()
+	defer cc.lock.Unlock()
+	return fu.fireT, fu.idx, fu.f != nil, true
+}
+
+// VerifPool returns the pool parameters: idle timeout, worker limit, capacity of the wake channel
+func VerifPool() (idle time.Duration, maxWorkers int, wakeCap int) {
+	cc.lock.Lock()
+	defer cc.lock.Unlock()
+	return cc.idleTimeout, cc.maxWorkers, cap(cc.wakeCh)
+}
+
+// VerifSetPool changes the idle timeout and the worker limit (under the package lock)
+// and returns a function restoring the previous values. The wake channel keeps the
+// capacity it was given in init(). Meant to be called while no worker is alive.
+func VerifSetPool(idle time.Duration, maxWorkers int) (restore func()) {
+	cc.lock.Lock()
+	defer cc.lock.Unlock()
+	oi, om := cc.idleTimeout, cc.maxWorkers
+	cc.idleTimeout, cc.maxWorkers = idle, maxWorkers
+	return func() {
+		cc.lock.Lock()
+		defer cc.lock.Unlock()
+		cc.idleTimeout, cc.maxWorkers = oi, om
+	}
+}
